@@ -365,8 +365,11 @@ func (g *c06gen) newColl() c06coll {
 	for i := 0; i < c.n; i++ {
 		switch c.typ {
 		case "list":
-			if g.r.Chance(1, 5) {
-				el = append(el, g.r.Pick([]string{"\"s\"", "(1, 2)", "[7]", "None"}))
+			if g.r.Chance(1, 4) {
+				// elements that are themselves collections of assorted lengths:
+				// built-ins that iterate over each element (dict, zip, update…)
+				// open a second level of iterators
+				el = append(el, g.r.Pick([]string{"\"s\"", "(1, 2)", "[7]", "None", "[1, 2, 3]", "[4, 5]", "{\"q\": 1}", "[]", "(1, 2, 3)", "{\"x\": 1, \"y\": 2}"}))
 			} else {
 				el = append(el, fmt.Sprint(i+1))
 			}
@@ -384,6 +387,30 @@ func (g *c06gen) newColl() c06coll {
 	case "set":
 		c.lit = "set([" + strings.Join(el, ", ") + "])"
 	}
+	g.emit(1, "%s = keep(%s, %q)", c.name, c.lit, c.name)
+	g.colls = append(g.colls, c)
+	return c
+}
+
+// richColl makes a kept list (or dict) whose elements are kept collections.
+func (g *c06gen) richColl() c06coll {
+	pool := []string{"[1, 2]", "(\"k\", 1)", "[7]", "[1, 2, 3]", "[]", "{\"q\": 1}", "{\"x\": 1, \"y\": 2}", "\"ab\"", "5", "(1, 2, 3)", "[\"p\", \"q\"]"}
+	if g.d.Set {
+		pool = append(pool, "set([1, 2])", "set([3])")
+	}
+	n := g.r.Range(1, 3)
+	var el []string
+	for i := 0; i < n; i++ {
+		e := pool[g.r.Intn(len(pool))]
+		if strings.HasPrefix(e, "[") || strings.HasPrefix(e, "{") || strings.HasPrefix(e, "set(") {
+			name := g.fresh("E")
+			g.emit(1, "%s = keep(%s, %q)", name, e, name)
+			e = name
+		}
+		el = append(el, e)
+	}
+	c := c06coll{name: g.fresh("C"), typ: "list", n: n}
+	c.lit = "[" + strings.Join(el, ", ") + "]"
 	g.emit(1, "%s = keep(%s, %q)", c.name, c.lit, c.name)
 	g.colls = append(g.colls, c)
 	return c
@@ -407,7 +434,7 @@ func (g *c06gen) construct() {
 	} else {
 		c = g.colls[g.r.Intn(len(g.colls))]
 	}
-	switch k := g.r.Intn(12); k {
+	switch k := g.r.Intn(15); k {
 	case 0, 1, 2: // for loop (possibly nested over the same collection), run inside a helper so that return is possible
 		fn := g.fresh("loop")
 		var b strings.Builder
@@ -490,8 +517,14 @@ func (g *c06gen) construct() {
 		g.emit(1, "attempt(%s, %s)", fn, c.name)
 		g.emit(1, "must_ok(%s, %s)", g.mut(c), c.name)
 		g.tags = append(g.tags, "unpack")
-	case 8, 9: // iterating built-in or method
+	case 8, 9, 12, 13, 14: // iterating built-in or method
 		t := iterTmpls[g.r.Intn(len(iterTmpls))]
+		if g.r.Chance(2, 3) {
+			// a fresh collection whose elements are themselves collections of
+			// assorted lengths (pairs, non-pairs, empties): built-ins that
+			// iterate over each element open a second level of iterators
+			c = g.richColl()
+		}
 		g.emit(1, "attempt(lambda: "+t.Expr+")", c.name)
 		g.emit(1, "must_ok(%s, %s)", g.mut(c), c.name)
 		g.tags = append(g.tags, "builtin:"+t.Name)
@@ -585,19 +618,26 @@ var (
 
 func (c06) postCheck(run c06run, what string, res *Result) {
 	c := run.ctx
+	// every kept collection and every collection nested inside one (an
+	// element that was itself iterated, e.g. a pair handed to dict())
+	roots := starlark.StringDict{}
 	for i, v := range c.Kept {
+		roots[fmt.Sprintf("%03d:%s", i, c.KeptNames[i])] = v
+	}
+	for _, n := range Walk(roots) {
+		v := n.V
 		if !IsCollection(v) {
 			continue
 		}
 		if fr, ok := FrozenFlag(v); ok && fr {
 			continue
 		}
-		if n, ok := IterCount(v); ok && n != 0 {
-			res.Violate("lock-leak", "%s: kept %s %s has %d active iterator(s) after the call returned", what, v.Type(), c.KeptNames[i], int32(n))
+		if cnt, ok := IterCount(v); ok && cnt != 0 {
+			res.Violate("lock-leak", "%s: %s %s has %d active iterator(s) after the call returned", what, v.Type(), n.Path, int32(cnt))
 			continue
 		}
 		if err := NeutralMutation(v); err != nil {
-			res.Violate("lock-leak", "%s: kept %s %s rejects a neutral mutation after the call returned: %v", what, v.Type(), c.KeptNames[i], err)
+			res.Violate("lock-leak", "%s: %s %s rejects a neutral mutation after the call returned: %v", what, v.Type(), n.Path, err)
 		}
 	}
 	for _, hv := range c.HostViol {
